@@ -32,6 +32,25 @@ def str_to_int(s):
     return z3.If(neg, -z3.StrToInt(body), z3.StrToInt(body))
 
 
+_AT = {}
+AT_AXIOMS = []
+
+
+def nth(seq_term, i):
+    """element access through an uninterpreted function linked to the sequence theory by one axiom per sequence sort:
+    quantified invariants trigger reliably on at(s, i), which the sequence solver's own seq.nth (rewritten internally) does not"""
+    so = seq_term.sort()
+    key = so.sexpr()
+    if key not in _AT:
+        f = z3.Function('at_%d' % len(_AT), so, z3.IntSort(), so.basis())
+        s, j = z3.Const('ats_%d' % len(_AT), so), z3.Int('atj_%d' % len(_AT))
+        _AT[key] = f
+        AT_AXIOMS.append(z3.ForAll([s, j], f(s, j) == s[j], patterns=[f(s, j)]))
+    if not z3.is_expr(i):
+        i = z3.IntVal(i)
+    return _AT[key](seq_term, i)
+
+
 def box(v):
     """typed value -> Val"""
     s = v.sort
